@@ -1511,9 +1511,9 @@ func storedPathsThrough(p *ssa.Parameter) (paths [][]string, all bool) {
 			case *ssa.Store:
 				if x.Addr == v {
 					paths = append(paths, pre)
-				} else {
-					all = true // pointer itself stored somewhere
 				}
+				// the pointer itself being stored (e.g. a back link) is an escape, not a write by this callee:
+				// later writes through the escaped alias are separate instructions of their own functions
 			case *ssa.UnOp, *ssa.DebugRef:
 			default:
 				all = true
